@@ -1188,7 +1188,8 @@ fn add_adversarial(r: &mut Rng, p: &mut Prog, _root: &J) {
             }
             3 => {
                 // extreme indices
-                let idx = *r.pick(&[i32::MIN, i32::MAX, -1, -2, 1000000]);
+                // (also the first few positions: one of them is the length of a short list)
+                let idx = *r.pick(&[i32::MIN, i32::MAX, -1, -2, 1000000, 0, 1, 2, 3, 4, -3]);
                 let key = (*r.pick(doc::KEYS)).to_string();
                 if r.chance(1, 3) {
                     // ... on the values of an interpolated variable: `<map>.%ks[n]`
@@ -1230,7 +1231,11 @@ fn add_adversarial(r: &mut Rng, p: &mut Prog, _root: &J) {
                     _ => Rhs::Lit(J::List(vec![J::List(vec![J::Null])])),
                 };
                 let op = *r.pick(&[Op::Eq, Op::Gt, Op::Le, Op::In]);
-                lines.push(Line { alts: vec![Clause::Cmp(Cmp { not: r.chance(1, 2), q: q(vec![Part::Key(key), Part::Star]), op, opnot: r.chance(1, 2), rhs: Some(rhs), msg: None })] });
+                lines.push(Line { alts: vec![Clause::Cmp(Cmp { not: r.chance(1, 2), q: q(vec![Part::Key(key.clone()), Part::Star]), op, opnot: r.chance(1, 2), rhs: Some(rhs), msg: None })] });
+                // an empty list on the right-hand side, a list-valued left-hand side
+                lines.push(Line { alts: vec![Clause::Cmp(Cmp { not: false, q: q(vec![Part::Key(key.clone())]), op: *r.pick(&[Op::In, Op::Eq]), opnot: r.chance(1, 2), rhs: Some(Rhs::Raw("[]".into())), msg: None })] });
+                lets.push(Let { name: "el".into(), val: Arg::Lit(J::List(vec![J::Int(1), J::Int(2)])) });
+                lines.push(Line { alts: vec![Clause::Cmp(Cmp { not: false, q: q(vec![var("el")]), op: Op::In, opnot: r.chance(1, 2), rhs: Some(Rhs::Raw("[]".into())), msg: None })] });
             }
             7 => {
                 // reference to a rule that does not exist
